@@ -71,14 +71,18 @@ func genCfg(r *rand.Rand) sim.Cfg {
 		c.MaxFailed = p64(r.Int63n(hi + 1))
 	}
 	c.Minimize = r.Intn(2) == 0
-	switch r.Intn(4) {
-	case 0: // reachable goal
-		if c.Minimize {
-			c.Goal = p64(4)
-		} else {
-			c.Goal = p64(12)
+	switch r.Intn(8) {
+	case 0, 1, 2: // reachable goal (met by about half of the objective values, or by one in four): a verdict often comes while siblings run
+		g := int64(8)
+		if r.Intn(2) == 0 {
+			g = 4
 		}
-	case 1: // unreachable
+		if c.Minimize {
+			c.Goal = p64(g)
+		} else {
+			c.Goal = p64(16 - g)
+		}
+	case 3, 4: // unreachable
 		if c.Minimize {
 			c.Goal = p64(-8)
 		} else {
@@ -236,7 +240,11 @@ func (w *walker) step() {
 			add(0.25, sim.Action{Op: "jobgone", Key: j.Name}) // a retained run object removed by something else (TTL, user)
 		}
 		if j.Phase == "active" {
-			add(4, sim.Action{Op: "jobdone", Key: j.Name, Ok: r.Intn(5) > 0})
+			wt := 4.0
+			if expCompleted(p) {
+				wt = 0.6 // the siblings of the trial that brought the verdict keep running for a while
+			}
+			add(wt, sim.Action{Op: "jobdone", Key: j.Name, Ok: r.Intn(5) > 0})
 		}
 		if !inDB[j.Name] {
 			add(4, sim.Action{Op: "metrics", Key: j.Name, V: w.val(isES(trialByName[j.Name]))})
@@ -348,6 +356,28 @@ func (w *walker) drain() *int {
 	for _, c := range []string{"exp", "sug", "trial"} {
 		w.finish(c)
 	}
+	// a verdict reached while other trials are still running: in two thirds of these histories the controllers go round a few
+	// times before the remaining jobs finish (nothing may be created for a completed experiment meanwhile)
+	if expCompleted(s.Project()) && w.r.Intn(3) > 0 {
+		for k := 2 + w.r.Intn(3); k > 0; k-- {
+			active := false
+			for _, j := range s.Project().Jobs {
+				active = active || j.Phase == "active"
+			}
+			if !active {
+				break
+			}
+			w.do(sim.Action{Op: "syncexp"})
+			w.do(sim.Action{Op: "syncsug"})
+			w.do(sim.Action{Op: "synctrials"})
+			w.do(sim.Action{Op: "begin", C: "exp"})
+			w.finish("exp")
+			if s.CachedSuggestion() != nil {
+				w.do(sim.Action{Op: "begin", C: "sug", Resp: w.resp(0)})
+				w.finish("sug")
+			}
+		}
+	}
 	rounds := 250
 	faultyRounds := 0
 	if w.r.Intn(3) > 0 {
@@ -368,9 +398,14 @@ func (w *walker) drain() *int {
 			inDB[d.Name] = true
 		}
 		envActed := false
+		// the remaining jobs finish one after the other, not all at once: a verdict may come while siblings still run
+		first := true
 		for _, j := range p.Jobs {
 			if j.Phase == "active" {
-				w.do(sim.Action{Op: "jobdone", Key: j.Name, Ok: true})
+				if first || w.r.Intn(2) == 0 {
+					w.do(sim.Action{Op: "jobdone", Key: j.Name, Ok: true})
+				}
+				first = false
 				envActed = true
 			}
 		}
@@ -580,6 +615,15 @@ func (world) Run(input any) kit.Case {
 		}
 		s.Apply(a)
 		p := s.Project()
+		if expCompleted(prev) && prev.Exp != nil {
+			running := false
+			for _, t := range prev.Trials {
+				running = running || !trialDone(t)
+			}
+			if running && a.Op == "begin" && a.C == "exp" {
+				stats["experiment-reconcile-after-verdict-with-unfinished-trials"]++
+			}
+		}
 		steps = append(steps, "("+a.Coq()+", "+p.CoqDelta(prev)+")")
 		if os.Getenv("VERIF_TRACE") != "" {
 			js, _ := json.Marshal(map[string]any{"exp": p.Exp, "sug": p.Sug, "infra": p.Infra, "pending": p.Pending, "ntrials": len(p.Trials)})
@@ -669,7 +713,7 @@ func (world) Run(input any) kit.Case {
 		c.Tags = append(c.Tags, "already-exists")
 	}
 	for _, k := range []string{"fault", "abort", "earlystop", "raisemax", "fault-after-verdict:exp", "fault-after-verdict:sug", "fault-after-verdict:trial",
-		"experiment-reconcile-on-stale-running-cache-after-verdict"} {
+		"experiment-reconcile-on-stale-running-cache-after-verdict", "experiment-reconcile-after-verdict-with-unfinished-trials"} {
 		if stats[k] > 0 {
 			c.Tags = append(c.Tags, k)
 		}
